@@ -1,3 +1,432 @@
 package c12
 
-func registerMatchers() {}
+import (
+	"fmt"
+	"math"
+	"os"
+	"strings"
+
+	"verif/internal/gen"
+	"verif/internal/ox"
+	"verif/internal/refdate"
+	"verif/internal/run"
+)
+
+// Matchers for known_findings/C12.jsonl. Each is a deviation model (what the
+// known defect yields for this very input) unless stated to be a region.
+
+func registerMatchers() {
+	run.RegisterMatcher("c12.timeclip", func(f *run.Failure) bool {
+		r := matchTimeClip(f)
+		if r && os.Getenv("C12_DEBUG") != "" {
+			df, _ := os.OpenFile(os.Getenv("C12_DEBUG"), os.O_APPEND|os.O_CREATE|os.O_WRONLY, 0o644)
+			defer df.Close()
+			fmt.Fprintf(df, "DBG timeclip site=%s exp=%s act=%s in=%s\n", f.Site, f.Expected, f.Actual, f.Input)
+		}
+		return r
+	})
+	run.RegisterMatcher("c12.stickyNaN", matchStickyNaN)
+	run.RegisterMatcher("c12.isoInvalidNoThrow", matchISOInvalidNoThrow)
+	run.RegisterMatcher("c12.isoYearFormat", matchISOYearFormat)
+	run.RegisterMatcher("c12.parseExpandedYear", matchParseExpandedYear)
+	run.RegisterMatcher("c12.hour24", matchHour24)
+	run.RegisterMatcher("c12.offsetMinute60", matchOffsetMinute60)
+	run.RegisterMatcher("c12.fullYearOnInvalid", matchFullYearOnInvalid)
+	run.RegisterMatcher("c12.twoDigitYearFraction", matchTwoDigitYearFraction)
+	run.RegisterMatcher("c12.coercionShortcut", matchCoercionShortcut)
+	run.RegisterMatcher("c12.hugeField", matchHugeField)
+}
+
+func input(f *run.Failure) (Input, bool) {
+	switch v := f.In.(type) {
+	case Input:
+		return v, true
+	case *Input:
+		return *v, true
+	}
+	return Input{}, false
+}
+
+func stepOf(f *run.Failure) int {
+	var k int
+	d := f.Detail
+	if i := strings.Index(d, "step="); i >= 0 {
+		if _, err := fmt.Sscanf(d[i:], "step=%d", &k); err == nil {
+			return k
+		}
+	}
+	return -1
+}
+
+func finite(x float64) bool { return x == x && !math.IsInf(x, 0) }
+
+const maxTime = 8.64e15
+
+// exactLimit: beyond this otto's own float64 division in epochToTime starts to
+// round (value/1000 loses the .999), so its internal time.Time is no longer a
+// simple function of the number; the time-clip matcher is a region there.
+const exactLimit = 1e17
+
+func outOfRange(x float64) bool { return finite(x) && math.Abs(x) > maxTime }
+
+// unclippedInt is ToInteger(x)+0 for finite |x| < 2^63.
+func unclippedInt(x float64) float64 { return refdate.ToInteger(x) + 0 }
+
+// exactDate is day*msPerDay+time in exact integer arithmetic, rounded once
+// (what an implementation computing in int64 milliseconds yields).
+func exactDate(day, time float64) (float64, bool) {
+	if !finite(day) || !finite(time) || math.Abs(day) > 1e11 || math.Abs(time) > 4e18 {
+		return 0, false
+	}
+	return float64(int64(day)*86400000 + int64(time)), true
+}
+
+// specState replays the ES5 model up to (not including) step k.
+func specState(in Input, k int) float64 {
+	cur := refdate.TimeClip(float64(in.T))
+	for j := 0; j < k && j < len(in.Steps); j++ {
+		cur = setOracle(cur, in.Steps[j])
+	}
+	return cur
+}
+
+// everInvalid reports whether the date has been invalid at some point before
+// step k (initial value or the result of an earlier step is NaN in the ES5
+// model). The isNaN flag of otto's dateObject is set in exactly those
+// situations (non-finite initial value, setter without or with a non-finite
+// argument; with the time-clip fix also an out-of-range result) and is never
+// cleared again (KF-C12-setTime-on-invalid).
+func everInvalid(in Input, k int) bool {
+	cur := refdate.TimeClip(float64(in.T))
+	if cur != cur {
+		return true
+	}
+	for j := 0; j < k && j < len(in.Steps); j++ {
+		cur = setOracle(cur, in.Steps[j])
+		if cur != cur {
+			return true
+		}
+	}
+	return false
+}
+
+// looksValid: the observed output is that of a valid date (no NaN, no
+// "Invalid Date", no null, no exception).
+func looksValid(actual string) bool {
+	return !strings.Contains(actual, "NaN") && !strings.Contains(actual, "Invalid Date") && actual != "null" && !strings.Contains(actual, "throw:") && !strings.Contains(actual, "I")
+}
+
+func pair(x float64) string { return "n:" + ox.Num(x) + ",n:" + ox.Num(x) }
+
+func goISO(t float64) string {
+	y := refdate.YearFromTime(t)
+	ys := fmt.Sprintf("%04d", int64(y)) // Go's "2006": sign, then at least four digits
+	if y < 0 {
+		ys = fmt.Sprintf("-%04d", int64(-y))
+	}
+	return fmt.Sprintf("%s-%02d-%02dT%02d:%02d:%02d.%03dZ", ys, int(refdate.MonthFromTime(t))+1, int(refdate.DateFromTime(t)),
+		int(refdate.HourFromTime(t)), int(refdate.MinFromTime(t)), int(refdate.SecFromTime(t)), int(refdate.MsFromTime(t)))
+}
+
+// KF-C12-timeclip: TimeClip (15.9.1.14) is never applied. Deviation model:
+// the operation yields the value it hands to TimeClip.
+func matchTimeClip(f *run.Failure) bool {
+	in, ok := input(f)
+	if !ok || f.Kind != "mismatch" {
+		return false
+	}
+	switch in.Op {
+	case "acc":
+		T := float64(in.T)
+		if !outOfRange(T) {
+			return false
+		}
+		if math.Abs(T) > exactLimit {
+			// region (finite |t| > 1e17): the date is treated as a valid one
+			return looksValid(f.Actual)
+		}
+		t := unclippedInt(T)
+		for _, a := range accessors {
+			if a.name == f.Site {
+				return f.Actual == "n:"+ox.Num(a.f(t)+0)
+			}
+		}
+		switch f.Site {
+		case "toISOString", "toJSON":
+			// Go's year layout, or the expanded form once KF-C12-iso-year-format is fixed
+			return f.Actual == "s:"+ox.Str(goISO(t)) || f.Actual == "s:"+ox.Str(refdate.ISO(t))
+		case "formatters":
+			return f.Actual == "s:"+ox.Str(strings.Repeat("S", len(formatters)))
+		}
+	case "prim":
+		T := float64(in.T)
+		if !outOfRange(T) || (in.S != "num-obj" && in.S != "numstr-obj") {
+			return false
+		}
+		if math.Abs(T) >= 9.2e18 {
+			return true // region: int64 conversion overflow is platform-defined
+		}
+		return f.Actual == "n:"+ox.Num(unclippedInt(T))
+	case "utc", "ctor":
+		if strings.HasSuffix(f.Site, ":coercion") || hasHuge(in.Args) {
+			return false
+		}
+		raw, ok := exactDate(utcParts(floats(in.Args)))
+		return ok && math.Abs(raw) > maxTime && f.Actual == "n:"+ox.Num(raw)
+	case "set":
+		k := stepOf(f)
+		if k < 0 || k >= len(in.Steps) || strings.HasSuffix(f.Site, ":coercion") {
+			return false
+		}
+		st := in.Steps[k]
+		if st.Method != "setTime" && hasHuge(st.Args) {
+			return false
+		}
+		cur := specState(in, k)
+		if k == 0 && outOfRange(float64(in.T)) {
+			// the unclipped initial value is what the object really holds
+			if math.Abs(float64(in.T)) > exactLimit {
+				return looksValid(f.Actual) // region
+			}
+			cur = unclippedInt(float64(in.T))
+		}
+		if st.Method == "setTime" {
+			if len(st.Args) == 0 || !outOfRange(float64(st.Args[0])) {
+				return false
+			}
+			a := float64(st.Args[0])
+			if math.Abs(a) >= 9.2e18 {
+				return true // region: int64 conversion overflow
+			}
+			return f.Actual == pair(unclippedInt(a))
+		}
+		if cur != cur && !usesZeroForNaN(st.Method) {
+			return false
+		}
+		raw, ok := exactDate(setParts(cur, st))
+		if !ok {
+			return false
+		}
+		if math.Abs(raw) <= maxTime && !(k == 0 && outOfRange(float64(in.T))) {
+			return false
+		}
+		return f.Actual == pair(raw)
+	}
+	return false
+}
+
+// KF-C12-setTime-on-invalid: dateObject.Set never clears isNaN, so setTime on
+// an invalid date returns the new value but the object stays invalid.
+func matchStickyNaN(f *run.Failure) bool {
+	in, ok := input(f)
+	if !ok || in.Op != "set" || f.Site != "setTime" {
+		return false
+	}
+	k := stepOf(f)
+	if k < 0 || k >= len(in.Steps) || len(in.Steps[k].Args) == 0 || !everInvalid(in, k) {
+		return false
+	}
+	a := float64(in.Steps[k].Args[0])
+	if !finite(a) || math.Abs(a) >= 9.2e18 {
+		return false
+	}
+	return f.Actual == "n:"+ox.Num(unclippedInt(a))+",n:NaN"
+}
+
+// KF-C12-toISOString-invalid: "Invalid Date" instead of a RangeError.
+func matchISOInvalidNoThrow(f *run.Failure) bool {
+	in, ok := input(f)
+	if !ok || in.Op != "acc" || f.Site != "toISOString" {
+		return false
+	}
+	t := refdate.TimeClip(float64(in.T))
+	return t != t && f.Actual == `s:"Invalid Date"`
+}
+
+// KF-C12-iso-year-format: years outside 0..9999 are printed with Go's "2006"
+// verb instead of the six-digit expanded form.
+func matchISOYearFormat(f *run.Failure) bool {
+	in, ok := input(f)
+	if !ok || in.Op != "acc" || (f.Site != "toISOString" && f.Site != "toJSON") {
+		return false
+	}
+	t := refdate.TimeClip(float64(in.T))
+	if t != t {
+		return false
+	}
+	if y := refdate.YearFromTime(t); y >= 0 && y <= 9999 {
+		return false
+	}
+	return f.Actual == "s:"+ox.Str(goISO(t))
+}
+
+func isoTextOf(f *run.Failure, in Input) string {
+	switch in.Op {
+	case "iso":
+		return in.S
+	case "acc":
+		if f.Site == "Date.parse(iso)" || f.Site == "new Date(iso)" {
+			if t := refdate.TimeClip(float64(in.T)); t == t {
+				return refdate.ISO(t)
+			}
+		}
+	case "prim":
+		if in.S == "str-obj" || in.S == "valueof-str" || in.S == "tostring-only" {
+			if t := refdate.TimeClip(float64(in.T)); t == t {
+				return refdate.ISO(t)
+			}
+		}
+	}
+	return ""
+}
+
+// KF-C12-parse-expanded-year: Date.parse gives NaN for every legal string
+// with a +-YYYYYY year.
+func matchParseExpandedYear(f *run.Failure) bool {
+	in, ok := input(f)
+	if !ok {
+		return false
+	}
+	s := isoTextOf(f, in)
+	if s == "" || (s[0] != '+' && s[0] != '-') {
+		return false
+	}
+	return f.Actual == "n:NaN" && f.Expected != "n:NaN"
+}
+
+// KF-C12-parse-hour-24: the legal end-of-day form T24:00[:00[.000]] gives NaN.
+func matchHour24(f *run.Failure) bool {
+	in, ok := input(f)
+	if !ok || in.Op != "iso" || !strings.Contains(in.S, "T24:00") {
+		return false
+	}
+	return f.Actual == "n:NaN" && f.Expected != "n:NaN"
+}
+
+// KF-C12-fullyear-on-invalid: set[UTC]FullYear / setYear on an invalid date
+// must start from t = +0 (15.9.5.40/41, B.2.5); otto returns NaN.
+func matchFullYearOnInvalid(f *run.Failure) bool {
+	in, ok := input(f)
+	if !ok || in.Op != "set" || !usesZeroForNaN(f.Site) {
+		return false
+	}
+	k := stepOf(f)
+	if k < 0 || k >= len(in.Steps) || !everInvalid(in, k) {
+		return false
+	}
+	return f.Actual == "n:NaN,n:NaN" && f.Expected != f.Actual
+}
+
+// KF-C12-two-digit-year-fraction: the 0..99 window is tested on the
+// unconverted number instead of ToInteger(year) (15.9.3.1 step 8, 15.9.4.3).
+func matchTwoDigitYearFraction(f *run.Failure) bool {
+	in, ok := input(f)
+	if !ok || (in.Op != "utc" && in.Op != "ctor") || strings.HasSuffix(f.Site, ":coercion") || len(in.Args) < 2 || hasHuge(in.Args) {
+		return false
+	}
+	y := float64(in.Args[0])
+	if !finite(y) {
+		return false
+	}
+	iy := refdate.ToInteger(y)
+	if !(iy >= 0 && iy <= 99) || (y >= 0 && y <= 99) {
+		return false
+	}
+	a := floats(in.Args)
+	_, time := utcParts(a) // the time part does not depend on the year
+	get := func(i int, def float64) float64 {
+		if i < len(a) {
+			return a[i]
+		}
+		return def
+	}
+	day := refdate.MakeDay(iy, get(1, math.NaN()), get(2, 1)) // no +1900
+	raw, ok := exactDate(day, time)
+	return ok && f.Actual == "n:"+ox.Num(raw)
+}
+
+func firstNonFinite(a []gen.F, n int) int {
+	for i := 0; i < n && i < len(a); i++ {
+		if !finite(float64(a[i])) {
+			return i
+		}
+	}
+	return -1
+}
+
+// KF-C12-coercion-shortcut: argument conversion stops at the first non-finite
+// value (and does not happen at all in a setter on an invalid date).
+func matchCoercionShortcut(f *run.Failure) bool {
+	in, ok := input(f)
+	if !ok || in.Wrap != "obj" || !strings.HasSuffix(f.Site, ":coercion") {
+		return false
+	}
+	switch in.Op {
+	case "utc", "ctor":
+		j := firstNonFinite(in.Args, 7)
+		return j >= 0 && j < len(in.Args)-1 && f.Actual == seq(j+1)
+	case "set":
+		k := stepOf(f)
+		if k < 0 || k >= len(in.Steps) {
+			return false
+		}
+		st := in.Steps[k]
+		s := setterByName(st.Method)
+		if s == nil || st.Method == "setTime" {
+			return false
+		}
+		n := len(st.Args)
+		if n > s.max {
+			n = s.max
+		}
+		if everInvalid(in, k) && n > 0 && f.Actual == seq(0) {
+			return true
+		}
+		j := firstNonFinite(st.Args, n)
+		return j >= 0 && j < n-1 && f.Actual == seq(j+1)
+	}
+	return false
+}
+
+// KF-C12-huge-field (region): a field beyond +-2e8 overflows Go int /
+// time.Time arithmetic; the result is then unrelated to the field values.
+func matchHugeField(f *run.Failure) bool {
+	in, ok := input(f)
+	if !ok || strings.HasSuffix(f.Site, ":coercion") {
+		return false
+	}
+	switch in.Op {
+	case "utc", "ctor":
+		return hasHuge(in.Args)
+	case "set":
+		k := stepOf(f)
+		return k >= 0 && k < len(in.Steps) && in.Steps[k].Method != "setTime" && hasHuge(in.Steps[k].Args)
+	}
+	return false
+}
+
+// KF-C12-parse-offset-minute-60: a time zone offset of the form +-HH:60 is
+// accepted (Go's parser allows 60 on purpose) and read as HH hours 60 minutes.
+func matchOffsetMinute60(f *run.Failure) bool {
+	in, ok := input(f)
+	if !ok || in.Op != "iso" || len(in.S) < 7 || !strings.HasSuffix(in.S, ":60") {
+		return false
+	}
+	off := in.S[len(in.S)-6:]
+	if off[0] != '+' && off[0] != '-' {
+		return false
+	}
+	hh := int(off[1]-'0')*10 + int(off[2]-'0')
+	if hh > 24 {
+		return false
+	}
+	base, rec := refdate.ParseISO(in.S[:len(in.S)-6] + "Z")
+	if !rec || base != base {
+		return false
+	}
+	delta := float64(hh*60+60) * refdate.MsPerMinute
+	if off[0] == '+' {
+		delta = -delta
+	}
+	return f.Expected == "n:NaN" && f.Actual == "n:"+ox.Num(base+delta)
+}
